@@ -124,6 +124,7 @@ type TClient struct {
 	Invs      []*InvRec
 	pubSeq    map[wamp.URI]int
 	pubDiscl  map[string]bool // "<tag>#<seq>" of publications made with disclose_me
+	ChunkAt   map[wamp.ID][]int // request -> scheduling steps at which the client decided to send a further chunk (it had seen no final reply then)
 	RegByID   map[wamp.ID]TOp // registration id -> the REGISTER op that was acknowledged with it
 	callSeq   int
 	Done      bool
@@ -137,7 +138,7 @@ const (
 )
 
 func NewTClient(s *Sess, beh int, slow time.Duration) *TClient {
-	t := &TClient{Sess: s, Beh: beh, SlowDelay: slow, SubReq: map[wamp.ID]TOp{}, SubByID: map[wamp.ID]TOp{}, RegReq: map[wamp.ID]TOp{}, pubSeq: map[wamp.URI]int{}, pubDiscl: map[string]bool{}, RegByID: map[wamp.ID]TOp{}}
+	t := &TClient{Sess: s, Beh: beh, SlowDelay: slow, SubReq: map[wamp.ID]TOp{}, SubByID: map[wamp.ID]TOp{}, RegReq: map[wamp.ID]TOp{}, pubSeq: map[wamp.URI]int{}, pubDiscl: map[string]bool{}, RegByID: map[wamp.ID]TOp{}, ChunkAt: map[wamp.ID][]int{}}
 	s.OnRecv = t.onRecv
 	return t
 }
@@ -365,6 +366,7 @@ func (t *TClient) Exec(c *Ctx, op TOp) bool {
 			for k, v := range op.Opts {
 				o[k] = v // receive_progress, timeout: as given with the first chunk
 			}
+			t.ChunkAt[req] = append(t.ChunkAt[req], t.W.S.StepCount())
 			if !t.SendRec(&wamp.Call{Request: req, Options: o, Procedure: op.URI, Arguments: wamp.List{tag, i}}) {
 				return false
 			}
